@@ -1,6 +1,7 @@
 """C15 — the update tool reruns exactly the requested path and drops only its dependants (E1 over the tool entry point)."""
 from __future__ import annotations
 
+import collections
 import itertools
 import json
 import re
@@ -143,7 +144,7 @@ class Resolver:
         return result
 
 
-def make_config(vms, nets, vm_params, vm_strs=None):
+def make_config(vms, nets, vm_params, vm_strs=None, run_params=None):
     from virttest import utils_params
 
     config = {}
@@ -151,6 +152,7 @@ def make_config(vms, nets, vm_params, vm_strs=None):
     config["available_vms"].update({v: r for v, r in (vm_strs or {}).items()})  # as the command line parser fills it
     config["available_restrictions"] = ["leaves", "normal", "minimal"]
     config["param_dict"] = {"nets": nets}
+    config["param_dict"].update(run_params or {})
     config["vm_strs"] = {v: (vm_strs or {}).get(v, AVAILABLE_VMS[v]) for v in vms}
     config["tests_str"] = {}
     config["tests_params"] = utils_params.Params()
@@ -171,9 +173,9 @@ def analyse(case):
             vp[f"to_state_{v}"] = to
         if remove_set:
             vp[f"remove_set_{v}"] = remove_set
-    config = make_config(vms, nets, vp, case.get("vm_strs"))
+    config = make_config(vms, nets, vp, case.get("vm_strs"), case.get("params"))
     everything = [(f"image1_{v}", s) for v in ("vm1", "vm2", "vm3") for s in ALL_STATES] + [(v, "on_customize") for v in ("vm1", "vm2", "vm3")]
-    scn = engine.Scenario("update", "", nets, shared=everything, D=(1.0, 3.0), O=("PASS",))
+    scn = engine.Scenario("update", "", nets, shared=everything, D=(1.0, 3.0), O=("PASS",), params=case.get("params"))
     r = tools.run_tool(scn, lambda: intertest_setup.update(config, tag="1r"), prefix)
     runs = [(e["w"], e["ident"], e["type"] == "shared_configure_install") for e in r.trace if e["k"] == "start"]
     unsets = sorted({(e["w"], it[0], it[2], it[1]) for e in r.trace if e["k"] == "door" and e["do"] == "unset" for it in e["items"]})
@@ -279,6 +281,11 @@ def run(tier: str, seed: int) -> int:
         cases.append({"vms": ["vm1"], "nets": nets, "from": "customize", "to": "customize"})
         cases.append({"vms": ["vm2"], "nets": nets, "from": None, "to": None})
     cases.append({"vms": ["vm1"], "nets": "net5 net1", "from": "customize", "to": "customize", "vm_strs": {"vm1": ""}})
+    # narrowed reuse scopes: every worker (or swarm) keeps its own setup and has to rerun the path itself
+    for scope in ("own", "own shared", "own swarm shared"):
+        cases.append({"vms": ["vm1"], "nets": "net1 net2", "from": "customize", "to": "customize", "params": {"pool_scope": scope}})
+        cases.append({"vms": ["vm1", "vm2"], "nets": "net1 net2", "from": None, "to": None, "params": {"pool_scope": scope}})
+    cases.append({"vms": ["vm1"], "nets": "cluster1.net6 cluster1.net7 cluster2.net6", "from": "customize", "to": "customize", "params": {"pool_scope": "own swarm shared"}})
     # schedule deviations: for multi-worker cases every single non-default choice
     results = list(common.pmap(analyse, cases))
     extra = []
@@ -294,7 +301,7 @@ def run(tier: str, seed: int) -> int:
     results += list(common.pmap(analyse, extra))
     for r in results:
         c = r["case"]
-        cid = f"vms={','.join(c['vms'])} nets={c['nets']} {c['from']}->{c['to']} remove_set={c.get('remove_set')}" + (f" vm_strs={c['vm_strs']}" if c.get("vm_strs") else "")
+        cid = f"vms={','.join(c['vms'])} nets={c['nets']} {c['from']}->{c['to']} remove_set={c.get('remove_set')}" + (f" params={c['params']}" if c.get("params") else "") + (f" vm_strs={c['vm_strs']}" if c.get("vm_strs") else "")
         vmv = {vm: variants_of(vm, (c.get("vm_strs") or {}).get(vm, AVAILABLE_VMS[vm])) for vm in c["vms"]}
         rep.evaluations += 1
         rep.transitions += r["points"] + 1
@@ -346,8 +353,21 @@ def run(tier: str, seed: int) -> int:
         for k, ws in got_runs.items():
             if k not in exp_runs:
                 rep.violation(f"[{cid}] executed {k[1]} of {k[0]} [{k[2]}] (on {ws}) which is not on the path {sorted(exp_runs)}", inp, {"kind": "extra-run", "state": k[1]})
-            elif len(ws) != 1:
-                rep.violation(f"[{cid}] executed {k[1]} of {k[0]} {len(ws)} times (on {ws}), the path is run once", inp, {"kind": "repeated-run", "state": k[1]})
+            else:
+                # the path is run once per reuse scope (the whole run; every swarm or every worker when the pool scope is narrowed)
+                scopes = str((c.get("params") or {}).get("pool_scope", "own swarm cluster shared")).split()
+                able = [w for w in workers if worker_ok(w, c, k[0], k[2])]
+                if "swarm" not in scopes:
+                    units = {w: w for w in able}
+                elif "cluster" not in scopes:
+                    units = {w: (w.split(".")[0] if "." in w else "localhost") for w in able}
+                else:
+                    units = {w: "run" for w in able}
+                want_units = set(units.values())
+                got_units = collections.Counter(units.get(w, "?" + w) for w in ws)
+                if set(got_units) != want_units or any(v != 1 for v in got_units.values()):
+                    rep.violation(f"[{cid}] executed {k[1]} of {k[0]} on {ws}; the path is run once per reuse scope {sorted(want_units)}", inp,
+                                  {"kind": "repeated-run" if len(ws) > len(want_units) else "missing-run", "state": k[1], "scoped": len(want_units) > 1})
         for k in exp_runs - set(got_runs):
             rep.violation(f"[{cid}] did not execute {k[1]} of {k[0]} [{k[2]}] although it is on the path", inp, {"kind": "missing-run", "state": k[1]})
         got_unsets = {}
